@@ -22,9 +22,20 @@ def noWrite : List Act → Bool
   | .del .. :: _ => false
   | _ :: as => noWrite as
 
+/-- the merge `DB.ScanPrefix` builds from a memtable list and a list of tables, delete markers still present -/
+def scanWithRaw (mems : List Run) (T : List Tbl) (p : Bytes) : Run :=
+  merge2 (mergeAll (mems.map (prefixRun p))) (mergeAll (T.map (·.scan p)))
+
 /-- memtable phase in state `sA`, sstable phase in state `sB`, delete markers still present -/
-def scan2Raw (sA sB : State) (p : Bytes) : Run :=
-  merge2 (mergeAll (sA.mems.map (prefixRun p))) (mergeAll ((sB.levels.flatten).map (·.scan p)))
+def scan2Raw (sA sB : State) (p : Bytes) : Run := scanWithRaw sA.mems sB.levels.flatten p
+
+/-- a table selection for prefix `p` is adequate for the level list `L` if it selects only tables of `L` and
+every table of `L` holding a key with the prefix -/
+def Selects (T : List Tbl) (L : List (List Tbl)) (p : Bytes) : Prop :=
+  (∀ t ∈ T, t ∈ L.flatten) ∧ ∀ t ∈ L.flatten, ∀ e ∈ t.run, Bytes.hasPrefix e.key p = true → t ∈ T
+
+theorem selects_all (L : List (List Tbl)) (p : Bytes) : Selects L.flatten L p :=
+  ⟨fun _ h => h, fun _ h _ _ _ => h⟩
 
 /-- `DB.ScanPrefix` with the memtables read in state `sA` and the level list read in the (later) state `sB` -/
 def scan2 (sA sB : State) (p : Bytes) : Run :=
@@ -147,41 +158,42 @@ theorem tbl_containers_of_mem {s : State} {t : Tbl} (ht : t ∈ s.levels.flatten
   simp only [containers, List.mem_append, List.mem_map]
   exact Or.inr ⟨t, (readOrder_mem _ t).mpr ht, rfl⟩
 
-theorem scan2Raw_sorted {sA sB : State} {m : Spec} (hA : Inv sA m) (hB : Inv sB m) (p : Bytes) :
-    (scan2Raw sA sB p).Sorted := by
-  unfold scan2Raw
+theorem scanWithRaw_sorted {sA sB : State} {m : Spec} (hA : Inv sA m) (hB : Inv sB m) {T : List Tbl}
+    (hT : ∀ t ∈ T, t ∈ sB.levels.flatten) (p : Bytes) : (scanWithRaw sA.mems T p).Sorted := by
+  unfold scanWithRaw
   apply merge2_sorted <;> apply mergeAll_sorted
   · intro r hr
     obtain ⟨r0, hr0, rfl⟩ := List.mem_map.mp hr
     exact prefixRun_sorted p (hA.sorted r0 (mem_containers_of_mem hr0))
   · intro r hr
     obtain ⟨t, ht, rfl⟩ := List.mem_map.mp hr
-    exact prefixRun_sorted p (hB.sorted t.run (tbl_containers_of_mem ht))
+    exact prefixRun_sorted p (hB.sorted t.run (tbl_containers_of_mem (hT t ht)))
 
-/-- the two-phase raw scan finds, for every key with the prefix, the latest write -/
-theorem lookup_scan2Raw {sA sB : State} {m : Spec} (hA : Inv sA m) (hB : Inv sB m)
-    (hsub : ∀ r ∈ sB.mems, r ∈ sA.mems ∨ r = []) (p k : Bytes) :
-    Run.lookup (scan2Raw sA sB p) k = if Bytes.hasPrefix k p then Spec.get m k else none := by
+/-- the raw scan over the memtables of `sA` and an adequate selection `T` of the tables of the later state `sB`
+finds, for every key with the prefix, the latest write -/
+theorem lookup_scanWithRaw {sA sB : State} {m : Spec} (hA : Inv sA m) (hB : Inv sB m)
+    (hsub : ∀ r ∈ sB.mems, r ∈ sA.mems ∨ r = []) {T : List Tbl} (p : Bytes) (hT : Selects T sB.levels p)
+    (k : Bytes) :
+    Run.lookup (scanWithRaw sA.mems T p) k = if Bytes.hasPrefix k p then Spec.get m k else none := by
   have hsA : ∀ r ∈ sA.mems.map (prefixRun p), r.Sorted := by
     intro r hr
     obtain ⟨r0, hr0, rfl⟩ := List.mem_map.mp hr
     exact prefixRun_sorted p (hA.sorted r0 (mem_containers_of_mem hr0))
-  have hsB : ∀ r ∈ (sB.levels.flatten).map (fun t => t.scan p), r.Sorted := by
+  have hsB : ∀ r ∈ T.map (fun t => t.scan p), r.Sorted := by
     intro r hr
     obtain ⟨t, ht, rfl⟩ := List.mem_map.mp hr
-    exact prefixRun_sorted p (hB.sorted t.run (tbl_containers_of_mem ht))
-  have hmap : (sB.levels.flatten).map (fun t => t.scan p) =
-      ((sB.levels.flatten).map (fun t => t.run)).map (prefixRun p) := by
+    exact prefixRun_sorted p (hB.sorted t.run (tbl_containers_of_mem (hT.1 t ht)))
+  have hmap : T.map (fun t => t.scan p) = (T.map (fun t => t.run)).map (prefixRun p) := by
     rw [List.map_map]; rfl
-  unfold scan2Raw
+  unfold scanWithRaw
   rw [lookup_merge2 (mergeAll_sorted hsA) (mergeAll_sorted hsB), lookup_mergeAll hsA, lookup_mergeAll hsB, hmap,
     bestHit_map_prefix, bestHit_map_prefix]
   by_cases hp : Bytes.hasPrefix k p = true
   · simp only [hp, if_true]
-    have hinB : ∀ r ∈ (sB.levels.flatten).map (fun t => t.run), r ∈ containers sB := by
+    have hinB : ∀ r ∈ T.map (fun t => t.run), r ∈ containers sB := by
       intro r hr
       obtain ⟨t, ht, rfl⟩ := List.mem_map.mp hr
-      exact tbl_containers_of_mem ht
+      exact tbl_containers_of_mem (hT.1 t ht)
     cases hg : Spec.get m k with
     | none =>
       have h1 : bestHit sA.mems k = none := by
@@ -189,7 +201,7 @@ theorem lookup_scan2Raw {sA sB : State} {m : Spec} (hA : Inv sA m) (hB : Inv sB 
         have := hA.hit k
         rw [hg, firstHit_none] at this
         exact this r (mem_containers_of_mem hr)
-      have h2 : bestHit ((sB.levels.flatten).map (fun t => t.run)) k = none := by
+      have h2 : bestHit (T.map (fun t => t.run)) k = none := by
         rw [bestHit_none]; intro r hr
         have := hB.hit k
         rw [hg, firstHit_none] at this
@@ -198,7 +210,7 @@ theorem lookup_scan2Raw {sA sB : State} {m : Spec} (hA : Inv sA m) (hB : Inv sB 
     | some e =>
       -- coverage: the latest version is seen by one of the two phases
       have hcov : (∃ b, bestHit sA.mems k = some b ∧ e.seq ≤ b.seq) ∨
-          (∃ b, bestHit ((sB.levels.flatten).map (fun t => t.run)) k = some b ∧ e.seq ≤ b.seq) := by
+          (∃ b, bestHit (T.map (fun t => t.run)) k = some b ∧ e.seq ≤ b.seq) := by
         have hf := hB.hit k
         rw [hg] at hf
         obtain ⟨r, hr, hl⟩ := (firstHit_isMax hB.newer hf).1
@@ -210,8 +222,10 @@ theorem lookup_scan2Raw {sA sB : State} {m : Spec} (hA : Inv sA m) (hB : Inv sB 
           | inr hnil => subst hnil; cases hl
         | inr ht =>
           obtain ⟨t, ht, rfl⟩ := ht
-          exact Or.inr (bestHit_ge (List.mem_map.mpr ⟨t, (readOrder_mem _ t).mp ht, rfl⟩) hl)
-      cases ho : pick (bestHit sA.mems k) (bestHit ((sB.levels.flatten).map (fun t => t.run)) k) with
+          have ⟨hme, hke⟩ := Run.lookup_some_mem hl
+          have htT : t ∈ T := hT.2 t ((readOrder_mem _ t).mp ht) e hme (by rw [hke]; exact hp)
+          exact Or.inr (bestHit_ge (List.mem_map.mpr ⟨t, htT, rfl⟩) hl)
+      cases ho : pick (bestHit sA.mems k) (bestHit (T.map (fun t => t.run)) k) with
       | none =>
         rw [pick_none] at ho
         rcases hcov with ⟨b, hb, _⟩ | ⟨b, hb, _⟩
@@ -238,28 +252,37 @@ theorem lookup_scan2Raw {sA sB : State} {m : Spec} (hA : Inv sA m) (hB : Inv sB 
   · have hp' : Bytes.hasPrefix k p = false := by simpa using hp
     simp [hp', pick]
 
-/-- two-phase `ScanPrefix`: strictly ascending, and exactly the live latest entries with the prefix -/
-theorem scan2_spec {sA sB : State} {m : Spec} (hA : Inv sA m) (hB : Inv sB m)
-    (hsub : ∀ r ∈ sB.mems, r ∈ sA.mems ∨ r = []) (p : Bytes) :
-    (scan2 sA sB p).Sorted ∧
-    ∀ e, e ∈ scan2 sA sB p ↔ (Spec.get m e.key = some e ∧ e.del = false ∧ Bytes.hasPrefix e.key p = true) := by
-  have hs := scan2Raw_sorted hA hB p
+/-- `ScanPrefix` over the memtables of `sA` and an adequate table selection of `sB`: strictly ascending, and
+exactly the live latest entries with the prefix -/
+theorem scanWith_spec {sA sB : State} {m : Spec} (hA : Inv sA m) (hB : Inv sB m)
+    (hsub : ∀ r ∈ sB.mems, r ∈ sA.mems ∨ r = []) {T : List Tbl} (p : Bytes) (hT : Selects T sB.levels p) :
+    Run.Sorted ((scanWithRaw sA.mems T p).filter (fun e => !e.del)) ∧
+    ∀ e, e ∈ (scanWithRaw sA.mems T p).filter (fun e => !e.del) ↔
+      (Spec.get m e.key = some e ∧ e.del = false ∧ Bytes.hasPrefix e.key p = true) := by
+  have hs := scanWithRaw_sorted hA hB hT.1 p
   refine ⟨List.Pairwise.filter _ hs, ?_⟩
   intro e
-  show e ∈ (scan2Raw sA sB p).filter (fun e => !e.del) ↔ _
   rw [List.mem_filter]
   constructor
   · rintro ⟨hm, hd⟩
     have hl := Run.lookup_of_mem hs hm
-    rw [lookup_scan2Raw hA hB hsub] at hl
+    rw [lookup_scanWithRaw hA hB hsub p hT] at hl
     by_cases hp : Bytes.hasPrefix e.key p = true
     · simp only [hp, if_true] at hl
       exact ⟨hl, by simpa using hd, hp⟩
     · have hp' : Bytes.hasPrefix e.key p = false := by simpa using hp
       simp [hp'] at hl
   · rintro ⟨hg, hd, hp⟩
-    have hl : Run.lookup (scan2Raw sA sB p) e.key = some e := by
-      rw [lookup_scan2Raw hA hB hsub, hp]; simpa using hg
+    have hl : Run.lookup (scanWithRaw sA.mems T p) e.key = some e := by
+      rw [lookup_scanWithRaw hA hB hsub p hT, hp]; simpa using hg
     exact ⟨(Run.lookup_some_mem hl).1, by simp [hd]⟩
+
+/-- two-phase `ScanPrefix` (all tables of the later state): strictly ascending, and exactly the live latest
+entries with the prefix -/
+theorem scan2_spec {sA sB : State} {m : Spec} (hA : Inv sA m) (hB : Inv sB m)
+    (hsub : ∀ r ∈ sB.mems, r ∈ sA.mems ∨ r = []) (p : Bytes) :
+    (scan2 sA sB p).Sorted ∧
+    ∀ e, e ∈ scan2 sA sB p ↔ (Spec.get m e.key = some e ∧ e.del = false ∧ Bytes.hasPrefix e.key p = true) :=
+  scanWith_spec hA hB hsub p (selects_all sB.levels p)
 
 end Rxn.Lsm
